@@ -28,7 +28,7 @@ TRUSTED_REASONS = {
     'external_body: lex_hostname': 'split()-based scanner: contract Some(n) ==> n <= len assumed; Kani harness lexing.hostname_4 (bounded)',
     'external_body: lex_hostport': 'enumerate().find(): contract Some(n) ==> n <= len assumed; reached by Kani harness lexing.url_4 (bounded)',
     'external_body: validate_scheme': 'iter().all(): arbitrary total bool',
-    'external_body: lex_ip_schemepart': 'slice pattern; contract assumed; Kani harness lexing.url_4 (bounded)',
+
     'external_body: condense_indices': 'peekable()-based body; contract assumed in Verus, checked by rac:condense_indices (bounded: len<=7, stretch<=3)',
     'external_body: next': 'number_lint unit: Document::iter_numbers is paste!-generated (tokens.iter().filter(is_number)); assumed to yield document tokens of kind Number and to terminate',
     'external_body: iter_numbers': 'see external_body: next',
